@@ -244,6 +244,13 @@ func newL2WorldOpt(r *core.Run, p *l2Profile, fixedBridge uint64, bases []string
 	}
 	w.opts.MinGasPrices = p.NodeMinGas
 	w.genesis = &node.L2Genesis{Time: w.now, Balances: bal, Opchild: gen, CurrencyPairs: pairs}
+	if r.Chance(1, 5) {
+		// the operator pre-funded the opchild module account in the bank genesis
+		amt := uint64(1000 + r.Intn(100_000))
+		w.genesis.ModuleFunds = sdk.NewCoins(sdk.NewCoin("umin", math.NewIntFromUint64(amt)))
+		w.m.Bal.add(authtypes.NewModuleAddress(opchildtypes.ModuleName), "umin", new(big.Int).SetUint64(amt))
+		w.m.supplyAdd("umin", new(big.Int).SetUint64(amt))
+	}
 	if r.Chance(1, 4) {
 		// the bank genesis already carries metadata for (some of) the bridged denoms, without any opchild denom pair
 		for _, b := range w.bases {
@@ -677,6 +684,28 @@ func (w *l2World) genOp(spec *modelL2, bc blockCtx) ([]sdk.Msg, string, string) 
 			tags = append(tags, ik+"{"+id+"}")
 			if so := sc.step(im[0], bc, false); so.P.Kind != mustFail && so.OnSuccess != nil {
 				so.OnSuccess(&txRes{OK: true})
+			}
+		}
+		if modBal := sc.Bal.get(authtypes.NewModuleAddress(opchildtypes.ModuleName), "umin"); modBal.Sign() > 0 && w.r.Chance(1, 3) {
+			// the authority spends from its own (pre-funded) account, and the same batch moves somebody else's coins
+			to, _ := sdk.AccAddressFromBech32(w.pickUser())
+			victim := w.pickUser()
+			inner = []sdk.Msg{
+				&banktypes.MsgSend{FromAddress: spec.Authority, ToAddress: to.String(), Amount: sdk.NewCoins(sdk.NewCoin("umin", math.NewInt(1)))},
+				&banktypes.MsgSend{FromAddress: victim, ToAddress: spec.Params.Admin, Amount: sdk.NewCoins(sdk.NewCoin("umin", math.NewInt(int64(1+w.r.Intn(1000)))))},
+			}
+			tags = []string{"send{1umin authority->" + short(to.String()) + "}", "send{" + short(victim) + "->admin FOREIGN-SIGNER}"}
+		} else if w.r.Chance(1, 5) {
+			// a second message of the first one's type, declared to be signed by somebody else than the authority
+			if s0, ok := innerSigner(inner[0]); ok && s0 == spec.Authority {
+				for try := 0; try < 12; try++ {
+					im, ik, id := w.genInner(sc, bc)
+					if len(im) == 1 && sdk.MsgTypeURL(im[0]) == sdk.MsgTypeURL(inner[0]) && setInnerSigner(im[0], w.pickUser()) {
+						inner = append(inner, im[0])
+						tags = append(tags, ik+"{"+id+" FOREIGN-SIGNER}")
+						break
+					}
+				}
 			}
 		}
 		sender := spec.Params.Admin
@@ -1331,4 +1360,21 @@ func (w *l2World) planPending() bool {
 		}
 	}
 	return false
+}
+
+// setInnerSigner overwrites the declared signer of an authority message.
+func setInnerSigner(msg sdk.Msg, signer string) bool {
+	switch x := msg.(type) {
+	case *opchildtypes.MsgAddValidator:
+		x.Authority = signer
+	case *opchildtypes.MsgRemoveValidator:
+		x.Authority = signer
+	case *opchildtypes.MsgUpdateParams:
+		x.Authority = signer
+	case *opchildtypes.MsgSpendFeePool:
+		x.Authority = signer
+	default:
+		return false
+	}
+	return true
 }
